@@ -447,7 +447,7 @@ CORR = {
     "C11": [corr_helpers("C11", ("builderr",))],
     "C06": [corr_c06],
     "C01": [corr_peg("C01", xonsh=False), corr_helpers("C01", ("makeargs", "span"))],
-    "C04": [corr_helpers("C04", ("span",))],
+    "C04": [corr_helpers("C04", ("span", "concat"))],
     "C02": [corr_peg("C02")],
     "C05": [corr_peg("C05")],
     "C03": [corr_peg("C03"), corr_tok("C03"), corr_pipeline("C03")],
